@@ -61,6 +61,8 @@ def segmentations(rng, lines):
     out = [("whole", [("send", stream)]),
            ("per-line", sum(([("send", l), ("sleep", 0.002)] for l in lines), [])),
            ("per-line-gaps", sum(([("send", l), ("sleep", 0.16 if i % 7 == 3 else 0.0)] for i, l in enumerate(lines)), []))]
+    # the terminating newline of every (short) line arrives alone, after a gap longer than the read timeout
+    out.insert(2, ("newline-late", sum(([("send", l[:-1]), ("sleep", 0.16 if len(l) < 200 and i % 2 == 0 else 0.0), ("send", l[-1:])] for i, l in enumerate(lines)), [])))
     k = len(stream) // 3
     out.append(("per-byte-prefix", [("send", stream[i:i + 1]) for i in range(min(k, 400))] + [("send", stream[min(k, 400):])]))
     # random chunking with long gaps in the middle of lines
@@ -94,7 +96,8 @@ def check_1090(rng, tier, report):
     scen = segmentations(rng, lines)
     # every split point of one valid line with a long gap
     one = fline(gentrack.adsb(0xABCDEF, gentrack.me_ident(4, 0, "SPLIT")))
-    pts = range(1, len(one)) if tier != "quick" else range(1, len(one), 4)
+    # quick: every 4th split point plus the structurally special ones (after '*', before ';', between ';' and the newline)
+    pts = range(1, len(one)) if tier != "quick" else sorted(set(range(1, len(one), 4)) | {1, 2, len(one) - 3, len(one) - 2, len(one) - 1})
     for name, script in scen:
         out, alive, rc, err, ferr = run_1090(script + [("sleep", 0.15)])
         got = parse_1090_stdout(out)
@@ -146,7 +149,7 @@ def run_radar_feed(script, keys_after=(b"\x1bOR",), args=(), wait=1.0, rows=40, 
 def check_radar_stream(rng, tier, report):
     lines = corpus(rng, 30 if tier == "quick" else 80)
     want = expected_counts(lines)
-    for name, script in segmentations(rng, lines)[:3 if tier == "quick" else 5]:
+    for name, script in segmentations(rng, lines)[:4 if tier == "quick" else 6]:
         r, f, snap, st = run_radar_feed(script + [("sleep", 2.0)], wait=0.8)
         got = airplanes_rows(snap)
         alive = st is None
